@@ -26,7 +26,7 @@ FACTOR = 20.0
 
 
 def floors(tier):
-    return {"runs": 400, "runs_with_bound_at_start": 150, "runs_with_active_bound_at_end": 150, "outward_start_runs": 60, "lattice_least_squares_runs": 60, "runs_with_inert_differencing_settings": 100, "runs_continued_from_a_target_stop": 150, "runs_with_free_optimum_grazing_a_bound": 60, "__nontrivial__": 150}
+    return {"runs": 400, "runs_with_bound_at_start": 150, "runs_with_active_bound_at_end": 150, "outward_start_runs": 60, "lattice_least_squares_runs": 60, "runs_with_inert_differencing_settings": 100, "runs_continued_from_a_target_stop": 150, "runs_with_user_step_cap_below_one": 60, "runs_with_free_optimum_grazing_a_bound": 60, "__nontrivial__": 150}
 
 
 def exhaustive(tier):
@@ -42,7 +42,8 @@ def cases(tier, seed):
                            boxes=("none", "mixed", "mixed", "boxed", "narrow", "lower", "upper", "boxed_degenerate", "nonneg", "unit", "zero_mixed"),
                            starts=("interior", "face", "vertex", "outward", "outward"))
         yield {"kind": "random", "problem": ps, "maxcor": int(rng.integers(1, 11)), "fd_step": float(gen.pick(rng, [1e-3, 1e-2, 0.1])) if i % 5 == 3 else None,
-               "target_frac": float(rng.uniform(0.05, 0.7)) if i % 3 == 0 else None, "restart_maxcor": int(rng.integers(1, 11))}
+               "target_frac": float(rng.uniform(0.05, 0.7)) if i % 3 == 0 else None, "restart_maxcor": int(rng.integers(1, 11)),
+               "step_cap": float(gen.pick(rng, [0.3, 0.5, 0.9])) if i % 10 == 4 else None}
     for i in range(200 if tier == "quick" else 6000):
         yield {"kind": "lattice", "problem": {"n": int(rng.integers(1, 7)), "seed": int(rng.integers(0, 2**31 - 1)), "w": float(gen.pick(rng, [1.0, 1.0, 1.0, 0.5, 2.0, 3.0])),
                                               "cut": bool(rng.random() < 0.4)}, "maxcor": int(rng.integers(1, 11))}
@@ -190,6 +191,9 @@ def run(spec):
     else:
         P = gen.make_problem(spec["problem"])
     cfg = dict(jac="callable", maxcor=spec["maxcor"], ftol=0.0, gtol=GTOL, maxiter=3000, maxfun=30000)
+    if spec.get("step_cap") is not None:
+        cfg["max_steplength"] = spec["step_cap"]  # the user's cap on the step length (below 1: every full step is cut)
+        out.count("runs_with_user_step_cap_below_one")
     if spec.get("fd_step") is not None:
         # settings of the differencing scheme are inert when the gradient is supplied: passed at non-default values on some runs
         cfg["eps"] = spec["fd_step"]
